@@ -121,14 +121,10 @@ def run_history(ctx: Ctx, backend: str, hist: list[tuple], fixes: dict, avoid_fi
                 and op[1] not in w.registered:
             # finding class (a) (DESIGN 7.7) is exercised by its own witness replay
             op = ("inv",)
-        if op[0] == "complete" and backend == "sqlite":
-            op = ("predict",)      # completeness_chart emits SQL that SQLite cannot parse (loud, outside C07)
         if op[0] == "sbl" and not link:
             op = ("cluster", op[1])  # single best links needs source datasets (link world)
         if link and op[0] in ("multi", "metrics"):
             op = ("sbl", 0)        # these take a single node table / id column here: dedupe world only
-        if link and backend == "sqlite" and op[0] in ("acc_tab", "err_tab", "m_pair"):
-            op = ("acc_col",)      # labels-table SQL uses CONCAT(), which SQLite lacks (loud, outside C07)
         w.reset_trackers()
         term, raised = w.apply(op)
         if raised:
@@ -145,7 +141,7 @@ def run_history(ctx: Ctx, backend: str, hist: list[tuple], fixes: dict, avoid_fi
     if probe_op is not None:
         if probe_op[0] == "sbl" and not link:
             probe_op = ("cluster", 0)
-        if link and (probe_op[0] == "multi" or (backend == "sqlite" and probe_op[0] in ("acc_tab", "err_tab"))):
+        if link and probe_op[0] == "multi":
             probe_op = ("sbl", 0)
         if probe_op[0] in ("c2", "fm") and not set(w.tfcols) <= set(w.registered):
             # compare_two_records / find_matches depend BY DESIGN on whether concat_with_tf is cached for tf columns without
